@@ -188,3 +188,6 @@ func Put64(b []byte, v uint64) {
 		b[i] = byte(v >> (56 - 8*uint(i)))
 	}
 }
+
+// TimeSec returns an arbitrary whole-second wall-clock instant.
+func TimeSec() time.Time { return time.Unix(int64(Int()), 0).UTC() }
